@@ -15,6 +15,7 @@ func init() {
 		Harnesses: []harness{
 			{Name: "gsxC14Plumbing", Pkg: "cmd/go-critic", Solver: "z3", Quick: map[string]int{}, MustReach: []string{"constructed"}},
 			{Name: "gsxC14Plumbing", Pkg: "cmd/gocritic", Solver: "z3", Quick: map[string]int{}, MustReach: []string{"constructed"}},
+			{Name: "gsxC14SizeOf", Pkg: "linter", Quick: map[string]int{"K": 2, "strlen": 6, "paths": 6000, "wall_s": 60}, NoValidate: true, Tolerant: true, ReplayFn: replaySizeOf, MustReach: []string{"asked twice", "sized"}},
 			{Name: "gsxC14Fields", Pkg: "checkers", Solver: "z3", Quick: map[string]int{"K": 1}, Replay: "none", MustReach: []string{"fields"}},
 			{Name: "gsxC14Monotone_hugeParam", Pkg: "checkers", Quick: c14q, Thorough: c14t, NoValidate: true, Tolerant: true, ReplayFn: replayThreshold("hugeParam", "sizeThreshold"), MustReach: []string{"strict warns"}},
 			{Name: "gsxC14Monotone_rangeValCopy", Pkg: "checkers", Quick: c14q, Thorough: c14t, NoValidate: true, Tolerant: true, ReplayFn: replayThreshold("rangeValCopy", "sizeThreshold"), MustReach: []string{"strict warns"}},
@@ -60,10 +61,10 @@ func init() {
 		}
 		hs = append(hs, harness{Name: "gsxC20RangeAppendAll", Pkg: "checkers", Solver: "z3", Quick: map[string]int{"paths": 400, "wall_s": 60}, NoValidate: true, ReplayFn: replayRangeAppendAll, MustReach: []string{"visited", "reported"}})
 		hs = append(hs, harness{Name: "gsxC20ExitAfterDefer", Pkg: "checkers", Solver: "z3", Quick: map[string]int{"paths": 400, "wall_s": 60}, NoValidate: true, ReplayFn: replayExitAfterDefer, MustReach: []string{"visited", "reported"}})
-		properties["C20"] = &property{ID: "C20", Level: "model_checking", Kinds: []string{"api"}, Harnesses: hs, Extra: runRuleTV("C20"),
+		properties["C20"] = &property{ID: "C20", Level: "model_checking", Kinds: []string{"api"}, Harnesses: hs, Extra: runRuleTV("C20"), ReplayExtra: replayRuleTV,
 			Assumptions: []string{"as C01; table of documented subjects per checker (builtin name / standard package path) in the harness"}}
 	}
-	properties["C10"] = &property{ID: "C10", Level: "translation_validation", Kinds: []string{"simplify"}, Extra: runRuleTV("C10"),
+	properties["C10"] = &property{ID: "C10", Level: "translation_validation", Kinds: []string{"simplify"}, Extra: runRuleTV("C10"), ReplayExtra: replayRuleTV,
 		Harnesses: []harness{
 			{Name: "gsxC10BoolSimplifyInt", Pkg: "checkers", Quick: map[string]int{"depth": 1, "strlen": 4, "paths": 3000, "wall_s": 60}, Thorough: map[string]int{"depth": 2, "strlen": 4, "paths": 15000, "wall_s": 300},
 				NoValidate: true, Tolerant: true, ReplayFn: replayC10, MustReach: []string{"simplified"}},
@@ -71,11 +72,13 @@ func init() {
 				NoValidate: true, Tolerant: true, ReplayFn: replayC10},
 			{Name: "gsxC10BoolSimplifyImpure", Pkg: "checkers", Quick: map[string]int{"depth": 1, "strlen": 4, "paths": 3000, "wall_s": 60}, Thorough: map[string]int{"depth": 2, "strlen": 4, "paths": 15000, "wall_s": 300},
 				NoValidate: true, Tolerant: true, ReplayFn: replayC10},
+			{Name: "gsxC10BoolSimplifyNamesake", Pkg: "checkers", Quick: map[string]int{"depth": 1, "strlen": 4, "paths": 3000, "wall_s": 60}, Thorough: map[string]int{"depth": 2, "strlen": 4, "paths": 15000, "wall_s": 300},
+				NoValidate: true, Tolerant: true, ReplayFn: replayC10},
 			{Name: "gsxC10BoolSimplifyNamedFloat", Pkg: "checkers", Quick: map[string]int{"depth": 1, "strlen": 4, "paths": 3000, "wall_s": 60}, Thorough: map[string]int{"depth": 2, "strlen": 4, "paths": 15000, "wall_s": 300},
 				NoValidate: true, Tolerant: true, ReplayFn: replayC10},
 		},
 		Assumptions: []string{"integer operands without overflow (as the property allows); float64 operands over the rationals in half units (NaN/Inf not modelled); literals: decimal or octal integer literals of up to 3 digits"}}
-	properties["C12"] = &property{ID: "C12", Level: "model_checking", Kinds: []string{"claim"}, Extra: runRuleTV("C12"),
+	properties["C12"] = &property{ID: "C12", Level: "model_checking", Kinds: []string{"claim"}, Extra: runRuleTV("C12"), ReplayExtra: replayRuleTV,
 		Harnesses: []harness{
 			{Name: "gsxC12BadCond", Pkg: "checkers", Solver: "z3", Quick: map[string]int{"paths": 4000, "wall_s": 60}, NoValidate: true, Tolerant: true, ReplayFn: replayC12BadCond, MustReach: []string{"always false"}},
 			{Name: "gsxC12NilValReturn", Pkg: "checkers", Solver: "z3", Quick: map[string]int{"paths": 4000, "wall_s": 60}, NoValidate: true, ReplayFn: replayNilValReturn, MustReach: []string{"visited", "reported"}},
@@ -125,7 +128,7 @@ func init() {
 		hs = append(hs,
 			harness{Name: "gsxC09CommentFix", Pkg: "checkers", Quick: map[string]int{"strlen": 8, "paths": 4000, "wall_s": 150}, Thorough: map[string]int{"strlen": 12, "paths": 20000, "wall_s": 900}, MustReach: []string{"checked", "reported", "re-analysed"}},
 			harness{Name: "gsxC09RuleFix", Pkg: "checkers", Quick: map[string]int{"strlen": 4, "paths": 4000, "wall_s": 120}, NoValidate: true, ReplayFn: replayRuleFix, MustReach: []string{"checked"}})
-		properties["C09"] = &property{ID: "C09", Level: "model_checking", Kinds: []string{"suggest"}, Harnesses: hs, Extra: runRuleTV("C09"),
+		properties["C09"] = &property{ID: "C09", Level: "model_checking", Kinds: []string{"suggest"}, Harnesses: hs, Extra: runRuleTV("C09"), ReplayExtra: replayRuleTV,
 			Assumptions: []string{"as C01; the syntax trees handed to the message printer are checked against go/ast's documented well-formedness (required children present); confirmed natively: the printed suggestion parses as the replaced category, substituted for the original the file type-checks with the same type, and re-analysis does not report at that place"}}
 	}
 	properties["C07"] = &property{
